@@ -156,7 +156,13 @@ impl<'a> OpApplier<'a> {
 
     pub fn open(&mut self) -> Result<(), String> {
         self.close();
-        self.kv = Some(open_caught(&self.hist.cfg, &self.dir)?);
+        let kv = open_caught(&self.hist.cfg, &self.dir)?;
+        let d = kv.get_handle().verif_dump();
+        if d.readers_len == 0 {
+            // a get on an empty reader pool never returns: report it instead of hanging
+            return Err(format!("open failed: the reader pool holds 0 of {} readers (every get would spin forever)", d.readers_capacity));
+        }
+        self.kv = Some(kv);
         Ok(())
     }
 
